@@ -20,7 +20,6 @@ import (
 	"math"
 	"math/rand/v2"
 	"net/netip"
-	"reflect"
 	"testing"
 
 	"github.com/osrg/gobgp/v4/internal/verif/gen"
@@ -400,7 +399,7 @@ func c19Equal(a, b *BMPMessage, tsTol float64) bool {
 		return false
 	}
 	b.PeerHeader.Timestamp = ta
-	eq := reflect.DeepEqual(a, b)
+	eq := gen.DeepEqual(a, b)
 	b.PeerHeader.Timestamp = tb
 	return eq
 }
@@ -574,7 +573,7 @@ func c19Hostile(rec *vlib.Rec, w *gen.C19Watch, r *rand.Rand, idx int) {
 		var ea, eb error
 		x := rec.Guard("c19:bmp:BMPPeerHeader.DecodeFromBytes", wit, func() { ea = pa.DecodeFromBytes(gen.C19Slack(rest, 0xAA, 64)) })
 		y := rec.Guard("c19:bmp:BMPPeerHeader.DecodeFromBytes", wit, func() { eb = pb.DecodeFromBytes(gen.C19Slack(rest, 0x55, 64)) })
-		if !x && !y && (fmt.Sprint(ea) != fmt.Sprint(eb) || !reflect.DeepEqual(pa, pb)) {
+		if !x && !y && (fmt.Sprint(ea) != fmt.Sprint(eb) || !gen.DeepEqual(pa, pb)) {
 			rec.Violation("c19:bmp:BMPPeerHeader.DecodeFromBytes:over-read", "result depends on bytes beyond len(data)", wit())
 		}
 		if pe == nil {
@@ -625,7 +624,7 @@ func c19Hostile(rec *vlib.Rec, w *gen.C19Watch, r *rand.Rand, idx int) {
 			var ea, eb error
 			x := rec.Guard("c19:bmp:direct:"+ep, wit, func() { ea = ba.ParseBody(&BMPMessage{PeerHeader: *ph, Body: ba}, gen.C19Slack(data, 0xAA, 64)) })
 			y := rec.Guard("c19:bmp:direct:"+ep, wit, func() { eb = bb.ParseBody(&BMPMessage{PeerHeader: *ph, Body: bb}, gen.C19Slack(data, 0x55, 64)) })
-			if !x && !y && (gen.C19ErrClass(ea) != gen.C19ErrClass(eb) || (ea == nil && !reflect.DeepEqual(ba, bb))) {
+			if !x && !y && (gen.C19ErrClass(ea) != gen.C19ErrClass(eb) || (ea == nil && !gen.DeepEqual(ba, bb))) {
 				rec.Violation("c19:bmp:direct:"+ep+":over-read", "result depends on bytes beyond len(data)",
 					map[string]any{"case": idx, "entry": ep, "body_input": gen.C19Hex(data), "poisonAA": fmt.Sprintf("%+v / %v", ba, ea), "poison55": fmt.Sprintf("%+v / %v", bb, eb)})
 			}
